@@ -1,28 +1,41 @@
 #!/usr/bin/env python3
-"""Apply a seeded change to /repo, run checks, revert. Never commits anything in /repo.
+"""Apply a seeded change to a scratch worktree of /repo (or, with --inplace, to /repo itself), run checks, clean up.
+Never commits anything in /repo.
 
-  tools/seedtest.py <patch.diff> <ID>[,<ID>...] [quick|thorough]
+  tools/seedtest.py [--inplace] <patch.diff> <ID>[,<ID>...] [quick|thorough]
 
 Prints one line per check: CAUGHT (exit 1 with VIOLATION line), MISSED (exit 0) or INCONCLUSIVE (exit 2).
 Evidence and replay files of these runs go to a scratch directory, not to /verif/evidence.
 """
 import os, subprocess, sys, tempfile, shutil, json, time
 ROOT = os.path.dirname(os.path.dirname(os.path.abspath(__file__)))
-patch, ids = os.path.abspath(sys.argv[1]), sys.argv[2].split(",")
-tier = sys.argv[3] if len(sys.argv) > 3 else "quick"
-st = subprocess.run(["git", "-C", "/repo", "status", "--porcelain"], capture_output=True, text=True).stdout.strip()
-if st:
-    print("refusing: /repo working tree is not clean:\n" + st)
-    sys.exit(2)
-r = subprocess.run(["git", "-C", "/repo", "apply", "--whitespace=nowarn", patch], capture_output=True, text=True)
+inplace = "--inplace" in sys.argv
+args = [a for a in sys.argv[1:] if a != "--inplace"]
+patch, ids = os.path.abspath(args[0]), args[1].split(",")
+tier = args[2] if len(args) > 2 else "quick"
+scratch = tempfile.mkdtemp(prefix="verif-seed-")
+if inplace:
+    repo = "/repo"
+    st = subprocess.run(["git", "-C", "/repo", "status", "--porcelain"], capture_output=True, text=True).stdout.strip()
+    if st:
+        print("refusing: /repo working tree is not clean:\n" + st)
+        sys.exit(2)
+else:
+    repo = os.path.join(scratch, "repo")
+    subprocess.run(["git", "-C", "/repo", "worktree", "add", "-q", "--detach", repo, "HEAD"], check=True)
+r = subprocess.run(["git", "-C", repo, "apply", "--whitespace=nowarn", patch], capture_output=True, text=True)
 if r.returncode != 0:
     print("PATCH-DOES-NOT-APPLY " + r.stderr.strip()[:300])
+    if not inplace:
+        subprocess.run(["git", "-C", "/repo", "worktree", "remove", "--force", repo])
+    shutil.rmtree(scratch, ignore_errors=True)
     sys.exit(2)
-scratch = tempfile.mkdtemp(prefix="verif-seed-")
 res = {}
 try:
     for pid in ids:
         env = dict(os.environ, VERIF_EVIDENCE_DIR=os.path.join(scratch, "ev"), VERIF_REPLAYS_DIR=os.path.join(scratch, "rp"))
+        if not inplace:
+            env["VERIF_REPO"] = repo
         t0 = time.time()
         p = subprocess.run([sys.executable, os.path.join(ROOT, "run.py"), "check", pid, tier], env=env, capture_output=True, text=True)
         out = p.stdout + p.stderr
@@ -39,6 +52,9 @@ try:
             print(out[-1500:])
         res[pid] = dict(verdict=verdict, sig=sig, wall_s=round(time.time() - t0, 1))
 finally:
-    subprocess.run(["git", "-C", "/repo", "checkout", "--", "."], check=True)
+    if inplace:
+        subprocess.run(["git", "-C", "/repo", "checkout", "--", "."], check=True)
+    else:
+        subprocess.run(["git", "-C", "/repo", "worktree", "remove", "--force", repo])
     shutil.rmtree(scratch, ignore_errors=True)
 print("RESULT " + json.dumps(res))
